@@ -315,6 +315,7 @@ def run(index: RepoIndex, rep) -> None:
                       f'rotation by {g.rot[(a, b)]} shows [{mc.r}][{mc.c}]',
                       f'compose {a},{b}')
     gm = index.func(GRID, 'Grid.__mul__')
+    gi.opaque = set(g.grid_rot_name.values())    # rotation functions stay symbolic here
     me, other = [a.arg for a in gm.node.args.args[:2]]
     for o in O:
         if o not in g.grid_rot_name:
